@@ -31,6 +31,9 @@ structure MappedSliceR where
   offset : Nat
   deriving DecidableEq, Repr, Inhabited
 
+/-- the bytes a `MappedBytes` / `MappedStr` payload denotes: the first `len` bytes of its elements -/
+def payloadBytes (p : Nat × List Word) : List UInt8 := (toBytes p.2).take p.1
+
 structure RawMapperR where
   len : Nat
   data : MappedSliceR
